@@ -52,8 +52,8 @@ def restyle(text, rng):
                 parts.append(f"{k}='{v}'")
             else:
                 parts.append(f'{k}="{v}"')
-        sep = rng.choice([' ', '\n     ', '  '])
-        return f'<{name} ' + sep.join(parts) + '>'
+        sep = rng.choice([' ', '\n     ', '  ', '\t'])
+        return f'<{name}' + sep + sep.join(parts) + '>'
     out = re.sub(r'<(Lexicon|LexiconExtension|Extends|Requires)\s([^<>]*?)(?<!/)>', fix, text)
     if rng.random() < 0.6:
         # comments are legal anywhere between elements: right after the start tag of a lexicon (i.e. before
